@@ -66,7 +66,7 @@ func run(tapeJSON json.RawMessage, res *core.Result) {
 		res.Verdict, res.Harness = "invalid", "alt skew"
 		return
 	}
-	if tp.SkewS < 1 || tp.SkewS > 3600 || len(tp.Tasks) < 1 || len(tp.Tasks) > 4 || nops < 1 || nops > 128 {
+	if tp.SkewS < 1 || tp.SkewS > 3600 || len(tp.Tasks) < 1 || len(tp.Tasks) > 4 || nops < 1 || nops > 400 {
 		res.Verdict, res.Harness = "invalid", "shape"
 		return
 	}
